@@ -88,6 +88,8 @@ STRING_MATCH = rw.simple("local", r"match value\.as_ref\(\) \{\s*Value_::String\
                          "match value.is_string() { Some(s) => Ok(s), None =>")
 
 WITNESSES = [
+    {"match": r"restore\.", "kind": "resume-corpus", "props": ["C07"], "input": None, "expect": {},
+     "note": "a failing step followed by :resume must reproduce the same error"},
     {"match": r"restore\.check_param_types", "kind": "json-session", "props": ["C07"],
      "input": ["fun f(x: Foo) { x }", "f(1)", ":resume", ":resume"],
      "expect": {"py": "('panicked' in out+err or out.count('Unbound type in hint') < 3) and 'resume after an unbound-type error did not reproduce it: ' + (out+err)[-300:] or ''"},
@@ -101,6 +103,51 @@ WITNESSES = [
      "expect": {"py": "(out.count('Expected `String`') < 3 or 'Expected `Function`' in out or 'panicked' in out+err) and 'resuming did not reproduce the same error: ' + out[-300:] or ''"},
      "note": "print(1) fails with a type error; resuming must fail with the same error again"},
 ]
+
+# C07 bounded stand-in (vc/replay.py kind resume-corpus): a failing step, then `:resume` twice: same error each time
+RESUME_CORPUS = [
+    {"what": "built-in function type error", "session": ["print(1)"]},
+    {"what": "built-in function after a successful call", "session": ["println(\"ok\")", "println(2)"]},
+    {"what": "built-in method range error after a successful call of the same method", "session": ["\"hello\".substring(0, 2)", "\"abc\".substring(2, 1)"]},
+    {"what": "built-in method type error after a successful call of the same method", "session": ["[1, 2, 3].slice(0, 1)", "[4, 5].slice(\"a\", 1)"]},
+    {"what": "no such method after a successful method call on the same type", "session": ["[1].len()", "[2, 3].nosuch()"]},
+    {"what": "user function arity error after a successful call", "session": ["fun two(a: Int, b: Int): Int { a + b }", "two(1, 2)", "two(5)"]},
+    {"what": "user function parameter type error after a successful call", "session": ["fun label(name: String, count: Int): String { name }", "label(\"a\", 1)", "label(3, \"apples\")"]},
+    {"what": "user method arity error after a successful call", "session": ["method twice(this: Int, by: Int): Int { this * by }", "2.twice(3)", "4.twice()"]},
+    {"what": "closure call with a wrong argument count", "session": ["let f = fun(x: Int) { x }", "f(1)", "f(1, 2)"]},
+    {"what": "integer operator on a string", "session": ["1 + 2", "3 + \"x\""]},
+    {"what": "comparison of mixed types", "session": ["1 < 2", "3 < \"x\""]},
+    {"what": "division by zero in a nested expression", "session": ["10 / 2", "(7 + 1) / (2 - 2)"]},
+    {"what": "error inside a callee, resumed in the callee", "session": ["fun inner(x: Int): Int { x / 0 }", "fun outer(y: Int): Int { inner(y) + 1 }", "outer(1)"], "resumes": 2},
+    {"what": "string method with a wrong receiver after success", "session": ["\"a,b\".split(\",\")", "\"c\".split(1)"]},
+    {"what": "assert failure on a comparison", "session": ["assert(1 == 1)", "assert(1 == 2)"]},
+    {"what": "assert failure on an ordering", "session": ["assert(1 < 0)"]},
+    {"what": "assert on a plain False", "session": ["assert(False)"]},
+    {"what": "`for` over a non-list", "session": ["fun t1() { for x in 1 { 2 } }", "t1()"]},
+    {"what": "`for` destructuring a non-tuple element", "session": ["fun t2() { for (a, b) in [1] { a } }", "t2()"]},
+    {"what": "`for` destructuring a tuple of the wrong size, second element", "session": ["fun t3() { for (a, b) in [(1, 2), (1, 2, 3)] { a } }", "t3()"]},
+    {"what": "`match` on a non-enum", "session": ["match 1 { Some(x) => x }"]},
+    {"what": "`match` with no matching case", "session": ["match Some(1) { None => 2 }"]},
+    {"what": "dict literal with a non-string key after string keys", "session": ["Dict[\"a\" => 1, 2 => 3, \"c\" => 4]"]},
+    {"what": "struct literal with a wrong field type", "session": ["struct P { x: Int, y: Int }", "P{ x: 1, y: \"a\" }"]},
+    {"what": "struct literal with an unknown field", "session": ["struct Q { x: Int, y: Int }", "Q{ x: 1, z: 2 }"]},
+    {"what": "struct literal with a missing field", "session": ["struct R { x: Int, y: Int }", "R{ x: 1 }"]},
+    {"what": "unbound return type hint", "session": ["fun f(): Nosuch { 1 }", "f()"], "resumes": 3},
+    {"what": "wrong return type", "session": ["fun g(): String { 1 }", "g()"], "resumes": 3},
+    {"what": "`if` / `while` on a non-Bool", "session": ["if 1 { 2 }"]},
+    {"what": "let with a wrong annotation", "session": ["let x: Int = \"a\""]},
+    {"what": "destructuring let of the wrong size", "session": ["let (a, b) = (1, 2, 3)"]},
+    {"what": "field access on a non-struct", "session": ["1.field"]},
+    {"what": "string concatenation with an Int", "session": ["\"a\" ^ 1"]},
+    {"what": "float operator on a string", "session": ["1.5 +. \"a\""]},
+]
+BOUNDED = [
+    {"name": "resume_corpus", "kind": "resume-corpus", "props": ["C07"], "input": RESUME_CORPUS, "n_inputs": len(RESUME_CORPUS),
+     "bound": "%d listed sessions (built-in functions and methods, user functions, methods and closures, operators; each failing after an earlier successful call of the same callee): the failing step and two `:resume`s must report the same message and position" % len(RESUME_CORPUS),
+     "expect": {}},
+]
+
+WITNESSES[0]["input"] = RESUME_CORPUS
 
 
 def builder_sites(src, host):
